@@ -173,6 +173,25 @@ func runC16(c *wk.Ctx) {
 			continue
 		}
 		c.Obs("alloc_measurements", 1)
+		// the same packet seen a second time with this host's MAC as Ethernet source (a captured client's packet that this host
+		// forwards shows up on its own promiscuous socket): frames sent through our interface never create or move a host, so
+		// the client's frame and the forwarded copy alternating are a steady state too
+		if frame.Host != nil && (ref.OffIP4 != 0 || ref.OffIP6 != 0) && len(b)*2 <= len(buf) {
+			fw := buf[len(b) : 2*len(b)]
+			copy(fw, b)
+			copy(fw[6:12], mon.DefaultNIC().HostMAC)
+			if ff, err := s.Parse(fw); err == nil {
+				if ff.Host != nil {
+					c.Viol("alloc:forwarded-copy:host-created", fmt.Sprintf("a frame with this host's MAC as source and IP source %v got a host entry", ref.SrcIP), cs())
+					continue
+				}
+				if a2 := testing.AllocsPerRun(50, func() { s.Parse(b); s.Parse(fw) }); a2 > 0 {
+					c.Viol(fmt.Sprintf("alloc:forwarded-copy:%s", frame.PayloadID), fmt.Sprintf("a tracked client's frame and its forwarded copy (our MAC as source) alternating: %.2f allocations per pair (%s)", a2, runName), cs())
+					continue
+				}
+				c.Obs("forwarded_copy_pairs_measured", 1)
+			}
+		}
 		c.Class(fmt.Sprintf("%s|%s|%s|%s", frame.PayloadID, f.L3, f.SrcKind, srcState))
 		if c.WantSample() && len(f.B) < 80 {
 			c.Sample(map[string]any{"frame_hex": wk.Hex(f.B), "kind": f.Kind, "payloadID": frame.PayloadID.String(), "source": srcState, "allocs_per_parse": allocs, "build": runName})
